@@ -9,7 +9,7 @@ CHECKS = {
          "§5 C01", "Lean 4 proof (induction over chunks) + ast translator of struct layouts + differential correspondence"),
  "C04": ("proof over the encoder model, for every authored entry and context: position i of the record written for an authored condition/action holds the encoded flags, the number its codec computes for the argument the transcoder table assigns to field i, or zero (c04_entry_fields); the table equals the hand-transcribed specification table (C05); a written string id resolves to exactly the authored text, a unit-property id to a stored equal set, a location id to that location's slot; authored triggers are emitted in order after the existing ones with exactly the authored players; hit points are floor(256*value); partial: composition with the byte layer (C01/C06) and the rebuilders is validated by byte-comparing the `edit` model with the real editors + RichChkIo on generated histories and by the independent reader (every authored value in its specification field, reload equality)",
          "§5 C04", "Lean 4 proof (keyed-lookup induction over the transcoder table rows) + byte-exact differential correspondence of edit histories + independent reader oracle"),
- "C07": ("proof over the editor and rebuilder models: adding triggers leaves every other section unchanged and the old triggers a prefix; upserting a unit leaves every other unit's setting unchanged in order; added WAV entries take free slots after the existing entries; section replacement is in place; the location and unit-property rebuilds keep the existing table as a prefix and, composed with the C09 soundness theorem, every pre-existing slot resolves to the same entry and is written with the same record after the rebuild (C08: existing string ids keep their text); pass-through sections stay in place (C10); partial: the composition over whole histories with save+reload is validated by byte-comparing the `edit` model with the real code and by the independent reader's slot-by-slot comparison against the unedited save",
+ "C07": ("proof over the editor and rebuilder models: adding triggers leaves every other section unchanged and the old triggers a prefix; upserting a unit leaves every other unit's setting unchanged in order; added WAV entries take free slots after the existing entries; section replacement is in place; the location and unit-property rebuilds keep the existing table as a prefix and, composed with the C09 soundness theorem, every pre-existing slot resolves to the same entry and is written with the same record after the rebuild (C08: existing string ids keep their text); pass-through sections stay in place (C10); partial: the composition over whole histories with save+reload is validated by byte-comparing the `edit` model with the real code and by the independent reader's slot-by-slot comparison against the unedited save; a switch the stored table names keeps its name and slot through any save, for every iteration order (c07_named_switch_keeps_name, an invariant over the SWNM placement loop)",
          "§5 C07", "Lean 4 proof (prefix / filter lemmas over the editor models) + byte-exact differential correspondence of edit histories + independent slot-by-slot oracle"),
  "C05": ("proof by complete enumeration (decide +kernel) that each of the 51+22 transcoder rows regenerated from the source agrees with the hand-transcribed specification table: own number and name, every argument read from and written to exactly its specification field through the same codec, zero elsewhere, no shared fields; plus the generic lemma that the table-driven record holds each argument in its field; tied to the real transcoders by a sentinel probe",
          "§5 C05", "Lean 4 proof over the generated transcoder table (finite domain = the registry) + ast translator + sentinel-probe correspondence"),
@@ -17,19 +17,19 @@ CHECKS = {
          "§5 C06", "Lean 4 proof (offset lemmas) + generated-layout = spec-layout obligation + independent spec reader as oracle"),
  "C08": ("proof, for every well-formed STR/STRx table (any offsets: shared, unsorted, interior; unreferenced entries; empty) and every request list of 7-bit strings, that the editor model succeeds, keeps every existing id's text, gives every requested string an id resolving to exactly it, appends only the not-yet-resolvable requests once each, yields a well-formed table, is idempotent, fails loudly on offset overflow, and that STR->STRx preserves the id->text map; model tied to both editors and the generator by a correspondence run with an independent offset reader",
          "§5 C08", "Lean 4 proof (induction on string data / request list) + hand model of the editors tied by differential correspondence"),
- "C09": ("proof about the allocator shared by the four slot tables, for every occupancy, batch and iteration order: slots handed out are in range, were empty, pairwise distinct, never the reserved Anywhere slot for index-less objects; carried free indices are kept; a call needing no new slot never fails; exhaustion and out-of-range indices fail loudly; WAV paths are requested once; configuration (ranges, reserved id, raise/skip) regenerated from the source and proved equal to the format's",
+ "C09": ("proof about the allocator shared by the four slot tables, for every occupancy, batch and iteration order: slots handed out are in range, were empty, pairwise distinct, never the reserved Anywhere slot for index-less objects; carried free indices are kept; a call needing no new slot never fails; exhaustion and out-of-range indices fail loudly; WAV paths are requested once; configuration (ranges, reserved id, raise/skip) regenerated from the source and proved equal to the format's; switch numbers handed to switches that carried none are pairwise different and never the number of a switch that carries one (c09_new_switch_numbers_fresh)",
          "§5 C09", "Lean 4 proof (state-machine invariant by induction over the request list) + ast translator of allocator configuration + differential correspondence with observed set order + whole saves of edited maps read back by an independent reader"),
  "C13": ("proof over an alias model: every function body of the operation layers (948 read, 56 containing an in-place mutation) is abstracted by the translator into a small heap IR (allocate / shallow copy / alias / element / mutate) regenerated on every run; the kernel evaluates a type check on every body (decide +kernel) and a soundness theorem, proved once for all programs and all heaps, says that a body passing the check changes no container cell that existed before the call, along every execution order; partial: the reading of Python into the IR is trusted (rules listed in DESIGN.md) and is tied by a deep-snapshot harness over every public method of the editor / io / transcoder layers, alone and in composed sequences",
          "§5 C13", "Lean 4 proof (soundness of a flow-insensitive alias type system, by invariant over executions) + ast translator of mutation/alias structure + deep-snapshot differential run"),
- "C14": ("proof that the allocator's outcome is invariant under permutation of the batch (List.Perm): both fail or both succeed, same free list, same occupied set, same set of new slots; whole-save determinism modulo new-slot numbering is validated across interpreters with different hash seeds through an independent slot-renumbering-invariant digest (partial: the rewrite of references and string collection order are checked by that run, not proved)",
+ "C14": ("proof that the allocator's outcome is invariant under permutation of the batch (List.Perm): both fail or both succeed, same free list, same occupied set, same set of new slots; whole-save determinism modulo new-slot numbering is validated across interpreters with different hash seeds through an independent slot-renumbering-invariant digest (partial: the rewrite of references and string collection order are checked by that run, not proved); the name a stored switch carries is the same under any two iteration orders (c14_named_switch_order_free); rebuilds that add nothing are order-free (c14_location_rebuild_order_free, c14_unit_property_rebuild_order_free)",
          "§5 C14", "Lean 4 proof (permutation invariance via an order-free characterisation) + cross-process differential run"),
- "C02": ("partial proof: for all inputs, every string reference (any id: shared, not-last, out of range, 0) is written back with an id resolving to the same text; sections keep their positions; flag words keep their defined bits and hit points are exact (C12); the whole-cycle preservation statement is kept visible (C02Full) but not proved and is false on the current tree for the recorded findings; the executable cycle model is byte-compared with the real code on every generated map and the game view is compared by an independent specification-driven reader",
+ "C02": ("partial proof: for all inputs, every string reference (any id: shared, not-last, out of range, 0) is written back with an id resolving to the same text; sections keep their positions; flag words keep their defined bits and hit points are exact (C12); the whole-cycle preservation statement is kept visible (C02Full) but not proved and is false on the current tree for the recorded findings; the executable cycle model is byte-compared with the real code on every generated map and the game view is compared by an independent specification-driven reader; for EVERY 255-slot MRGN and every 64-record UPRP, slot i of the output is empty exactly when slot i of the input is and otherwise holds the same coordinates / percentages / amounts, the flag words restricted to the defined bits and a name id resolving to the same text (c02_mrgn_values_kept, c02_uprp_values_kept_any)",
          "§5 C02", "Lean 4 lemmas about the rich-layer model (partial) + byte-exact differential correspondence of the whole cycle + independent reader oracle"),
- "C03": ("partial proof: byte-layer fixed point for every input (C19), string references are fixed points after one cycle, pass-through sections are fixed points, and the MRGN / UPRP / WAV section transcoders are proved to be the identity on editor-form tables (generic theorem + instantiation for the regenerated configuration); full identity/idempotence statements kept visible (C03Identity, C03Idempotent), false on the current tree for the recorded findings; byte identity of editor-form maps and idempotence of every map are checked on the real code and the model on every run",
+ "C03": ("partial proof: byte-layer fixed point for every input (C19), string references are fixed points after one cycle, pass-through sections are fixed points, and the MRGN / UPRP / WAV section transcoders are proved to be the identity on editor-form tables (generic theorem + instantiation for the regenerated configuration); full identity/idempotence statements kept visible (C03Identity, C03Idempotent), false on the current tree for the recorded findings; byte identity of editor-form maps and idempotence of every map are checked on the real code and the model on every run; section-level idempotence of the MRGN / UPRP / WAV save is proved for EVERY input table (c03_*_section_idempotent)",
          "§5 C03", "Lean 4 lemmas (partial) + byte-exact differential correspondence + byte-identity / second-cycle oracle"),
  "C10": ("proof over the rich-layer model, for every decoded section list, configuration and iteration order: every pass-through section (unknown, enum-only, recognised without rich model) is emitted identical at its original index, rebuilt/added sections are appended after, and every trigger entry of an unsupported type is carried as a raw record, written back verbatim, and keeps its position in every list that has no empty entry before its end; the remaining case (gap compaction) and the UPUS recomputation are recorded findings",
          "§5 C10", "Lean 4 proof (structural induction over the section list / entry list) + differential correspondence + in-place oracle by the independent reader"),
- "C11": ("proof over the encoder model, for every rich content: an emitted trigger has exactly 16 conditions / 64 actions / 27 player bytes or the call raises (oversize lists raise); MRGN, UPRP, UPUS and WAV tables are emitted at their mandated lengths; a written string id is 0 or resolves to exactly the string, a missing string raises KeyError; a written unit-property id is the slot of a stored equal set; entry i of the emitted UPUS is 1 exactly when a set is stored at slot i+1, and a set at an out-of-range slot raises; partial: the whole-file statement (section order, STR offsets in bounds) rests on C08/C09 theorems and is validated by the independent structural validator on every emitted file, including authored degenerate content",
+ "C11": ("proof over the encoder model, for every rich content: an emitted trigger has exactly 16 conditions / 64 actions / 27 player bytes or the call raises (oversize lists raise); MRGN, UPRP, UPUS and WAV tables are emitted at their mandated lengths; a written string id is 0 or resolves to exactly the string, a missing string raises KeyError; a written unit-property id is the slot of a stored equal set; entry i of the emitted UPUS is 1 exactly when a set is stored at slot i+1, and a set at an out-of-range slot raises; partial: the whole-file statement (section order, STR offsets in bounds) rests on C08/C09 theorems and is validated by the independent structural validator on every emitted file, including authored degenerate content; the rebuilt switch table has exactly 256 entries and every switch number written is a position of it; a location number is written only if the emitted table holds that location at that index; no two entries of the emitted location table, and no two sets of the emitted unit-property table, share a slot (composition of the rebuilds with C09 soundness)",
          "§5 C11", "Lean 4 proof of encoder shape lemmas + differential correspondence + independent structural validator"),
  "C12": ("proof, for every flag codec / enumeration / the AI-script and hit-point codecs as regenerated from the source, of number->rich->number and rich->number->rich exactness on the WHOLE domain (statements over all natural numbers, proved by induction on bits / membership, not by enumeration), injectivity, and rejection of every non-member number; plus exhaustive correspondence of the model with the real helpers",
          "§5 C12", "Lean 4 proof (bit induction, finite-table obligations by decide +kernel) + ast translator of bit layouts/enums + exhaustive differential correspondence"),
